@@ -58,7 +58,7 @@ fn finalised(l: usize, ch: &Chans, nreq: usize, mode: TransmissionMode) -> RecvT
     }
     p.received_file_size = l as u64;
     p.nak_received_file_size = l as u64;
-    p.filestore_response = resp.clone();
+    set_field(&mut p.filestore_response, resp.clone());
     p.finished = Some((
         Finished {
             condition: Condition::NoError,
